@@ -22,6 +22,10 @@ pub struct Plan {
     pub nodes: Vec<TreeNode>,
     pub order: Vec<u64>,
     pub style: String,
+    /// prune depth of the node (0 = default 8): with 1..3 the old chain a failing reorganisation has to wind
+    /// back consists of blocks whose transactions must be re-read from disk
+    #[serde(default)]
+    pub prune_after: u64,
 }
 
 fn gen(seed: u64, tier: Tier) -> Plan {
@@ -115,7 +119,8 @@ fn gen(seed: u64, tier: Tier) -> Plan {
         let i = rng.usize_below(order.len() - 1);
         order.swap(i, i + 1);
     }
-    Plan { seed, nodes, order, style: style.to_string() }
+    let prune_after = *rng.pick(&[0u64, 0, 1, 2, 3]);
+    Plan { seed, nodes, order, style: style.to_string(), prune_after }
 }
 
 /// property version: every window of six consecutive blocks on the chain holds >= 2 tickets
@@ -193,7 +198,11 @@ impl Scenario for C05 {
             }
         };
         let max_height = w.recs.iter().map(|b| b.id).max().unwrap_or(1);
-        let mut n = Node::new(&w.cfg, &w.keys[1].clone());
+        let mut ncfg = w.cfg.clone();
+        if plan.prune_after > 0 {
+            ncfg.consensus.prune_after_blocks = plan.prune_after;
+        }
+        let mut n = Node::new(&ncfg, &w.keys[1].clone());
         let mut trace = Digest::new();
         let _ = n.add_block_bytes(&w.recs[0].bytes.clone());
         let mut orphan_seen = false;
